@@ -404,6 +404,13 @@ func c07Scripted() []dkgrig.Config {
 			s.Unsolicited[v] = true
 			return s, i == b
 		})
+		// a wrong value for v, a false accusation of v on top, and a correct apology when v accuses
+		all(3, 2, func(i int) (dkgrig.Strategy, bool) {
+			s := dkgrig.HonestStrategy(3)
+			s.Eval[v] = dkgrig.EvalWrong
+			s.Accuse[v] = true
+			return s, i == b
+		})
 		// nothing for v in the dealing phase, a correct apology when v accuses, a false accusation of the third
 		// keyper, and a private evaluation for v in the middle of the apologizing phase
 		for off := int64(1); off <= 5; off++ {
